@@ -674,6 +674,204 @@ theorem invokeResult_conforms (l : Laws o) (rt : FType) (b : V) :
   unfold invokeResult coerced
   rw [if_pos h]
 
+/-! ## named arguments of a function value (`eval_function_named`) -/
+
+theorem namedLookup_none : ∀ (args : List (String × V)) (k : String), k ∉ args.map Prod.fst →
+    namedLookup args k = none
+  | [], _, _ => rfl
+  | (n, v) :: rest, k, h => by
+    simp only [List.map_cons, List.mem_cons, not_or] at h
+    have hn : (n == k) = false := by simpa using fun e => h.1 e.symm
+    simp [namedLookup, namedLookup_none rest k h.2, hn]
+
+/-- Of the arguments written with one name the last one is the argument (`BTreeMap::insert` replaces). -/
+theorem namedLookup_last_wins (args : List (String × V)) (k : String) (v : V) :
+    namedLookup (args ++ [(k, v)]) k = some v := by
+  induction args with
+  | nil => simp [namedLookup]
+  | cons a rest ih => obtain ⟨n, w⟩ := a; simp [namedLookup, ih]
+
+theorem namedLookup_of_nodup : ∀ (args : List (String × V)) (k : String) (v : V),
+    (args.map Prod.fst).Nodup → (k, v) ∈ args → namedLookup args k = some v
+  | [], _, _, _, h => by simp at h
+  | (n, w) :: rest, k, v, hn, h => by
+    simp only [List.map_cons, List.nodup_cons] at hn
+    rcases List.mem_cons.mp h with e | e
+    · obtain ⟨rfl, rfl⟩ := Prod.mk.inj e
+      simp [namedLookup, namedLookup_none rest k hn.1]
+    · simp [namedLookup, namedLookup_of_nodup rest k v hn.2 e]
+
+theorem namedLookup_mem : ∀ (args : List (String × V)) (k : String) (v : V),
+    namedLookup args k = some v → (k, v) ∈ args
+  | [], _, _, h => by simp [namedLookup] at h
+  | (n, w) :: rest, k, v, h => by
+    simp only [namedLookup] at h
+    cases hr : namedLookup rest k with
+    | some u =>
+      rw [hr] at h
+      cases h
+      exact List.mem_cons_of_mem _ (namedLookup_mem rest k _ hr)
+    | none =>
+      rw [hr] at h
+      by_cases e : (n == k) = true
+      · simp only [e, if_true] at h
+        cases h
+        have : n = k := by simpa using e
+        subst this
+        exact List.mem_cons_self
+      · simp [e] at h
+
+/-- What the loop of `eval_function_named` binds: all parameters or nothing. -/
+theorem bindNamedLoop_spec (m : String → Option V) : ∀ (ps : List (String × FType)) (bs : List (String × V)),
+    bindNamedLoop o m ps = some bs ↔
+      List.Forall₂ (fun p b => b.1 = p.1 ∧ ∃ a, m p.1 = some a ∧ b.2 = o.coerced p.2 a) ps bs
+  | [], bs => by
+    constructor
+    · intro h; simp [bindNamedLoop] at h; subst h; exact List.Forall₂.nil
+    · intro h; cases h; rfl
+  | (k, t) :: ps, bs => by
+    constructor
+    · intro h
+      simp only [bindNamedLoop] at h
+      cases hm : m k with
+      | none => rw [hm] at h; cases h
+      | some a =>
+        rw [hm] at h
+        cases hr : bindNamedLoop o m ps with
+        | none => rw [hr] at h; cases h
+        | some cs =>
+          rw [hr] at h
+          cases h
+          exact List.Forall₂.cons ⟨rfl, a, hm, rfl⟩ ((bindNamedLoop_spec m ps cs).mp hr)
+    · intro h
+      cases h with
+      | cons hb hrest =>
+        rename_i b cs
+        obtain ⟨h1, a, ha, h2⟩ := hb
+        have := (bindNamedLoop_spec m ps cs).mpr hrest
+        obtain ⟨bk, bv⟩ := b
+        simp only at h1 h2 ha
+        subst h1 h2
+        simp [bindNamedLoop, ha, this]
+
+/-- A named invocation binds its arguments exactly when every argument carries the name of a parameter and every
+parameter has an argument (otherwise the result is null); then every parameter is bound, in the order of the
+declaration, to the argument of ITS name - the last one written with that name - coerced to ITS type. -/
+theorem bindNamed_spec (ps : List (String × FType)) (args : List (String × V)) (bs : List (String × V)) :
+    bindNamed o ps args = some bs ↔
+      (∀ a ∈ args, a.1 ∈ ps.map Prod.fst) ∧
+      List.Forall₂ (fun p b => b.1 = p.1 ∧ ∃ a, namedLookup args p.1 = some a ∧ b.2 = o.coerced p.2 a) ps bs := by
+  unfold bindNamed
+  by_cases hu : args.any (fun a => !(ps.any (fun p => p.1 == a.1))) = true
+  · rw [if_pos hu]
+    constructor
+    · intro h; cases h
+    · rintro ⟨hall, _⟩
+      obtain ⟨a, ha, hna⟩ := List.any_eq_true.mp hu
+      have := hall a ha
+      obtain ⟨p, hp, hpe⟩ := List.mem_map.mp this
+      have : ps.any (fun p => p.1 == a.1) = true := List.any_eq_true.mpr ⟨p, hp, by simp [hpe]⟩
+      simp [this] at hna
+  · rw [if_neg hu, bindNamedLoop_spec]
+    constructor
+    · intro h
+      refine ⟨fun a ha => ?_, h⟩
+      have hx : ¬ (!(ps.any (fun p => p.1 == a.1))) = true := fun hc => hu (List.any_eq_true.mpr ⟨a, ha, hc⟩)
+      have : ps.any (fun p => p.1 == a.1) = true := by simpa using hx
+      obtain ⟨p, hp, hpe⟩ := List.any_eq_true.mp this
+      exact List.mem_map.mpr ⟨p, hp, by simpa using hpe⟩
+    · exact fun h => h.2
+
+/-- An argument whose name no parameter has makes the invocation null, whatever else is supplied. -/
+theorem bindNamed_unknown_name (ps : List (String × FType)) (args : List (String × V)) (a : String × V)
+    (ha : a ∈ args) (hn : a.1 ∉ ps.map Prod.fst) : bindNamed o ps args = none := by
+  cases h : bindNamed o ps args with
+  | none => rfl
+  | some bs => exact absurd (((bindNamed_spec o ps args bs).mp h).1 a ha) hn
+
+/-- A parameter without an argument of its name makes the invocation null. -/
+theorem bindNamed_missing (ps : List (String × FType)) (args : List (String × V)) (p : String × FType)
+    (hp : p ∈ ps) (hn : p.1 ∉ args.map Prod.fst) : bindNamed o ps args = none := by
+  cases h : bindNamed o ps args with
+  | none => rfl
+  | some bs =>
+    have h2 := ((bindNamed_spec o ps args bs).mp h).2
+    have : ∀ (ps : List (String × FType)) (bs : List (String × V)),
+        List.Forall₂ (fun p b => b.1 = p.1 ∧ ∃ a, namedLookup args p.1 = some a ∧ b.2 = o.coerced p.2 a) ps bs →
+        p ∈ ps → False := by
+      intro ps bs hf
+      induction hf with
+      | nil => intro hm; cases hm
+      | cons hb _ ih =>
+        intro hm
+        rcases List.mem_cons.mp hm with e | e
+        · subst e
+          obtain ⟨_, a, ha, _⟩ := hb
+          rw [namedLookup_none args _ hn] at ha
+          cases ha
+        · exact ih e
+    exact (this ps bs h2 hp).elim
+
+/-- **Named = positional for function values.**  When the parameters have distinct names and the arguments are
+written with those names, each once, in ANY order, the invocation binds exactly what the positional invocation
+with the arguments in the order of the declaration binds. -/
+theorem bindNamed_eq_bindPositional (ps : List (String × FType)) (vs : List V) (args : List (String × V))
+    (hd : (ps.map Prod.fst).Nodup) (hl : vs.length = ps.length)
+    (hp : args.Perm (List.zip (ps.map Prod.fst) vs)) :
+    bindNamed o ps args = bindPositional o ps vs := by
+  rw [bindPositional_spec, if_pos hl]
+  have hkeys : (args.map Prod.fst).Nodup := by
+    have : (args.map Prod.fst).Perm ((List.zip (ps.map Prod.fst) vs).map Prod.fst) := hp.map _
+    rw [List.map_fst_zip (by simp [hl])] at this
+    exact this.nodup_iff.mpr hd
+  apply (bindNamed_spec o ps args _).mpr
+  refine ⟨fun a ha => ?_, ?_⟩
+  · have : a ∈ List.zip (ps.map Prod.fst) vs := hp.mem_iff.mp ha
+    obtain ⟨k, v⟩ := a
+    exact (List.of_mem_zip this).1
+  · -- every parameter finds the argument written with its name
+    have key : ∀ (qs : List (String × FType)) (ws : List V), ws.length = qs.length →
+        (∀ x ∈ List.zip (qs.map Prod.fst) ws, x ∈ args) →
+        List.Forall₂ (fun p b => b.1 = p.1 ∧ ∃ a, namedLookup args p.1 = some a ∧ b.2 = o.coerced p.2 a) qs
+          (List.zipWith (fun p a => (p.1, o.coerced p.2 a)) qs ws) := by
+      intro qs
+      induction qs with
+      | nil => intro ws _ _; cases ws <;> exact List.Forall₂.nil
+      | cons q qs ih =>
+        intro ws hw hsub
+        cases ws with
+        | nil => simp at hw
+        | cons w ws =>
+          simp only [List.zipWith_cons_cons]
+          refine List.Forall₂.cons ⟨rfl, w, ?_, rfl⟩ (ih ws (by simpa using hw) (fun x hx => hsub x ?_))
+          · exact namedLookup_of_nodup args q.1 w hkeys (hsub (q.1, w) (by simp))
+          · simp only [List.map_cons, List.zip_cons_cons]
+            exact List.mem_cons_of_mem _ hx
+    exact key ps vs hl (fun x hx => hp.mem_iff.mpr hx)
+
+/-- Every argument bound by name conforms to the declared type of its parameter or is null. -/
+theorem bindNamed_conforms (l : Laws o) (ps : List (String × FType)) (args : List (String × V))
+    (bs : List (String × V)) (h : bindNamed o ps args = some bs) :
+    List.Forall₂ (fun p b => b.1 = p.1 ∧ conf (o.typeOf b.2) p.2 = true) ps bs := by
+  have h2 := ((bindNamed_spec o ps args bs).mp h).2
+  clear h
+  induction h2 with
+  | nil => exact List.Forall₂.nil
+  | cons hb _ ih =>
+    obtain ⟨h1, a, _, h3⟩ := hb
+    exact List.Forall₂.cons ⟨h1, by rw [h3]; exact coerced_conforms o l _ _⟩ ih
+
+example : bindNamed TV.ops [("x", .list .number), ("y", .number)]
+      [("y", .list [.atom .number]), ("x", .list [.atom .number])]
+    = bindPositional TV.ops [("x", .list .number), ("y", .number)] [.list [.atom .number], .list [.atom .number]] :=
+  bindNamed_eq_bindPositional TV.ops _ _ _ (by decide) rfl (List.Perm.swap _ _ _)
+
+example : bindNamed TV.ops [("x", .number)] [("x", .atom .number), ("z", .atom .number)] = none :=
+  bindNamed_unknown_name TV.ops _ _ ("z", .atom .number) (by simp) (by simp)
+
+example : bindNamed TV.ops [("x", .number), ("y", .number)] [("x", .atom .number)] = none :=
+  bindNamed_missing TV.ops _ _ ("y", .number) (by simp) (by simp)
+
 example : bindPositional TV.ops [("x", .list .number), ("y", .number)] [.list [.atom .number], .list [.atom .number]]
     = some [("x", .list [.atom .number]), ("y", .atom .number)] := by
   rw [bindPositional_spec]
